@@ -433,3 +433,17 @@ Proof.
   destruct (find_by_name_stable inst df _ r g c n k d fl D L F) as [_ H].
   cbn [run step] in H. destruct (register_plugin r inst df (g ++ s_aliases) (c :: n) k' force) as [o r']. exact H.
 Qed.
+
+(* find_plugin never lets a foreign exception out: it answers a class or raises a pybtex error
+   (PluginGroupNotFound / PluginNotFound), whatever the state, the tables and the arguments --
+   also for names that start with a period (fix 3f5a30c) *)
+Lemma find_plugin_no_foreign_exception r inst df g name fl :
+  find_plugin r inst df g name fl <> Crash /\ find_plugin r inst df g name fl <> OutOfFuel.
+Proof.
+  unfold find_plugin, load_entry_point, plugin_not_found.
+  destruct name as [|s|k]; [| |split; discriminate];
+    destruct (dget df g); try (split; discriminate);
+    repeat match goal with
+           | |- context [match ?x with _ => _ end] => destruct x
+           end; split; discriminate.
+Qed.
